@@ -308,13 +308,16 @@ def _run_chunk(args):
         'violations': [], 'harness': [],
         'faults': Counter(), 'probes': Counter(), 'states': set(), 'ops': 0, 'clauses': 0,
         'nontrivial_digests': set(), 'skipped': Counter(),
-        'samples': [], 'resampled': 0, 'nondeterministic': [],
+        'samples': [], 'resampled': 0, 'nondeterministic': [], 'digests': [],
     }
+    collect = bool(os.environ.get('PHYLIB_VERIF_COLLECT_DIGESTS'))
     for (index, seed, plan) in items:
         if plan is None:
             plan = engine.gen(random.Random(seed), prop, tier)
         res = execute_plan(engine, plan, prop, tier)
         out['n'] += 1
+        if collect:
+            out['digests'].append((index, res.plan_digest, res.log_digest, res.verdict))
         out['ops'] += res.ops
         out['clauses'] += res.clauses
         out['faults'].update(res.faults)
@@ -379,8 +382,10 @@ class Batch(object):
         self.samples = []
         self.resampled = 0
         self.nondeterministic = []
+        self.digests = []
 
     def add(self, out):
+        self.digests.extend(out.get('digests', []))
         self.n += out['n']
         self.ok += out['ok']
         self.blocked.update(out['blocked'])
